@@ -361,7 +361,7 @@ pub fn replay(v: &Value) -> i32 {
                     println!("      connection future completed: {r:?}");
                 }
                 if let Some(o) = &rec.obs_after {
-                    println!("      state={} timers={:?} flight={} rwnd={} cwnd={} mss={} rxq={} ooq={}B/{}p tx_ring={}/{} rto={:?}", o.state, o.timers, o.flight_size, o.last_remote_window, o.cwnd, o.mss, o.rx_queue_bytes, o.rx_ooq_bytes, o.rx_ooq_packets, o.tx_ring_len, o.tx_ring_cap, o.rto);
+                    println!("      state={} timers={:?} flight={} rwnd={} cwnd={} mss={} rxq={} ooq={}B/{}p tx_ring={}/{} rto={:?} recovery_phase={} rto_retx={} segs={}", o.state, o.timers, o.flight_size, o.last_remote_window, o.cwnd, o.mss, o.rx_queue_bytes, o.rx_ooq_bytes, o.rx_ooq_packets, o.tx_ring_len, o.tx_ring_cap, o.rto, o.recovery_phase, o.rto_retransmissions, o.tx_segments);
                 }
                 for f in fs {
                     println!("      FINDING {} {} {}: {}", f.property, f.monitor, f.signature, f.detail);
